@@ -1,6 +1,7 @@
 package main
 
 import (
+	"math/bits"
 	"fmt"
 	"go/types"
 	"strings"
@@ -1309,4 +1310,78 @@ func (c *Ctx) deepEq(st *State, a, b Value, depth int, visiting map[[2]int]bool)
 		return tt.Bool(b == nil)
 	}
 	panic(engineErr(fmt.Sprintf("UNMODELLED reflect.DeepEqual on %T", a)))
+}
+
+// ---------------------------------------------------------------- sort.Slice / sort.SliceStable
+
+func init() {
+	intrinsics["sort.Slice"] = func(c *Ctx, st *State, fn *ssa.Function, args []Value) (*State, Value) { return c.sortSlice(st, args, false) }
+	intrinsics["sort.SliceStable"] = func(c *Ctx, st *State, fn *ssa.Function, args []Value) (*State, Value) { return c.sortSlice(st, args, true) }
+}
+
+// insertion sort driven by the less callback. For sort.Slice this is what the library itself does up to 12 elements;
+// beyond that its algorithm is not stable and is not modelled. SliceStable is stable for every length.
+func (c *Ctx) sortSlice(st *State, args []Value, stable bool) (*State, Value) {
+	iv, ok := args[0].(*Iface)
+	if !ok || iv.t == nil {
+		panic(engineErr("UNMODELLED sort.Slice on a union/nil interface"))
+	}
+	sl, ok := iv.v.(*Slice)
+	if !ok {
+		panic(engineErr("UNMODELLED sort.Slice on a non-slice or union slice"))
+	}
+	less, ok := args[1].(*Func)
+	if !ok {
+		panic(engineErr("UNMODELLED sort.Slice with union less function"))
+	}
+	at := func(i int) *Ptr { return &Ptr{obj: sl.obj, path: pathAppend(sl.path, sl.off+i)} }
+	if !stable && sl.n > 12 {
+		// beyond 12 elements the library runs pattern-defeating quicksort: execute its real code (sort.pdqsort_func)
+		// with the element swapper reflectlite would have built
+		sp := c.prog.ImportedPackage("sort")
+		if sp == nil || sp.Func("pdqsort_func") == nil {
+			panic(engineErr("UNMODELLED sort.Slice on more than 12 elements: sort.pdqsort_func not found"))
+		}
+		ls := &Struct{f: []Value{less, &Func{builtin: "vswapper", env: []Value{sl}}}}
+		limit := uint64(bits.Len(uint(sl.n)))
+		ns, _ := c.callFunction(st, sp.Func("pdqsort_func"), []Value{ls, c.tt.Const(64, 0), c.tt.Const(64, uint64(sl.n)), c.tt.Const(64, limit)})
+		return ns, nil
+	}
+	cur := st
+	for i := 1; i < sl.n; i++ {
+		// inner loop of insertion sort with a symbolic continuation condition: "still moving" guard
+		moving := c.tt.T
+		for j := i; j > 0; j-- {
+			ns, r := c.callClosure(cur, less, []Value{c.tt.Const(64, uint64(j)), c.tt.Const(64, uint64(j-1))})
+			if ns == nil {
+				return nil, nil
+			}
+			cur = ns
+			lt := c.tt.And(moving, r.(*Term))
+			if lt.IsFalse() {
+				break
+			}
+			a, b := c.load(cur, at(j)), c.load(cur, at(j-1))
+			c.store(cur, at(j), c.merge(lt, b, a))
+			c.store(cur, at(j-1), c.merge(lt, a, b))
+			moving = lt
+		}
+	}
+	return cur, nil
+}
+
+// swapElems swaps s[i] and s[j] (what the function built by reflectlite.Swapper does); i and j may be symbolic.
+func (c *Ctx) swapElems(st *State, s *Slice, iv, jv Value) *State {
+	mk := func(v Value) *Ptr {
+		t := v.(*Term)
+		if t.IsConst() {
+			return &Ptr{obj: s.obj, path: pathAppend(s.path, s.off+int(int64(t.val)))}
+		}
+		return &Ptr{obj: s.obj, path: s.path, sym: t, symOff: s.off, symN: s.n}
+	}
+	pi, pj := mk(iv), mk(jv)
+	a, b := c.loadP(st, pi), c.loadP(st, pj)
+	c.storeP(st, pi, b)
+	c.storeP(st, pj, a)
+	return st
 }
